@@ -632,10 +632,28 @@ func (c *Compiler) ExpandModules() (err error) {
 	for _, module := range c.modules {
 		r := module.GetModule()
 		c.VerifyModuleIncludes(r, module.GetSubmodules())
-		for _, s := range module.GetSubmodules() {
-			c.ProcessSubmoduleIncludes(s, module.GetSubmodules())
+		// A submodule takes over what the submodules it includes have
+		// taken over from theirs: those go first, whatever the order in
+		// which the map hands them out.
+		submods := module.GetSubmodules()
+		done := make(map[string]bool, len(submods))
+		var includesFirst func(name string, s parse.Node)
+		includesFirst = func(name string, s parse.Node) {
+			if done[name] {
+				return
+			}
+			done[name] = true
+			for _, i := range s.ChildrenByType(parse.NodeInclude) {
+				if inc, ok := submods[i.Name()]; ok {
+					includesFirst(i.Name(), inc)
+				}
+			}
+			c.ProcessSubmoduleIncludes(s, submods)
 		}
-		c.ProcessModuleIncludes(r, module.GetSubmodules())
+		for name, s := range submods {
+			includesFirst(name, s)
+		}
+		c.ProcessModuleIncludes(r, submods)
 	}
 
 	//Process imports
